@@ -43,6 +43,11 @@ func ProtoFor(idx int) (string, func(*config.Blockchain)) {
 		c.MaxTraceableBlocks = 10
 		c.MaxValidUntilBlockIncrement = 5
 	}
+	if idx%7 == 5 {
+		// only the older hardforks, from genesis
+		stage := []string{"none", "Aspidochelone", "Cockatrice", "Echidna"}[(idx/7)%4]
+		return "forks-up-to-" + stage, func(c *config.Blockchain) { PartialForks(c, stage); base(c) }
+	}
 	if idx%3 == 2 {
 		return "staged-forks", func(c *config.Blockchain) { StagedForks(c); base(c) }
 	}
